@@ -106,9 +106,12 @@ claim("C12",
   "openapi_python_client/**/*.py (every for/join/list/pop/f-string over a set-typed expression; set-typedness inferred from annotations): all_loops_sorted_except_known (vm_compute), all_loops_sorted_if_fixed, and "
   "rendering_verdict (if the lazy_imports loops are sorted then deterministic else a concrete pair of differing enumerations exists - holds before and after the fix). Order part (RetryThm.v): the "
   "retry-until-no-progress loop of _create_schemas/_process_models on an abstract dependency graph handles exactly the least fixed point Derivable (process_sound, process_complete with fuel |todo|+1), hence "
-  "order_independent and clean_run_order_independent for every permutation of the to-do list. Correspondence: Coq sort models vs the real Jinja filter/sorted() on random lists, and for every generated module the lines "
+  "order_independent and clean_run_order_independent for every permutation of the to-do list; RegistryThm.v: re-registration of a class in Schemas.classes_by_name that only raises a flag (the multipart body copy of "
+  "bodies.py) is order independent (sticky_order_independent), last-registration-wins is not (overwrite_refuted) except when all uses agree (overwrite_order_independent_if_consistent), and registrations_safe on the regenerated "
+  "table of registration sites (first-only / compatibility-checked / sticky; anything else fails stage A). Correspondence: Coq sort models vs the real Jinja filter/sorted() on random lists, and for every generated module the lines "
   "written by each loop site == Order.emit (sorted flag from the regenerated table) of the set in the generating process's own enumeration order. Oracle: byte comparison of whole trees generated in fresh interpreters "
-  "across PYTHONHASHSEEDs and across permutations of components.schemas/paths (diagnostic-free documents), thorough also with the ruff post-hooks; differences are classified line-exactly into the known findings "
+  "across PYTHONHASHSEEDs and across permutations of components.schemas / paths / operations inside a path item (diagnostic-free documents; documents share models as multipart/json/form bodies and responses across operations, "
+  "have several media types per body, inline body schemas and name pressure), plus a variant permuting only the media types of request bodies (may reorder the branches of that operation's module by design, nothing else), thorough also with the ruff post-hooks; differences are classified line-exactly into the known findings "
   "lazy_unsorted, sort_case_tie, addl_lazy_order, module_collision_order, anything else is a violation with (documents, seeds, first differing file) as replay.",
   "Trusted: Coq kernel+vm_compute; gen_loops.py (name-based, conservative set-typedness inference; sites whose order only reaches diagnostic text (EDiag) or whose body commutes (ENone) are accepted); CPython's set iteration order is "
   "not modelled (theorems quantify over all orders, the oracle samples 6/16 hash seeds); str.lower() final-sigma rule; the abstract retry model Retry.v is tied to the code only by the permutation oracle (no abstraction function is run), "
@@ -325,7 +328,7 @@ claim("C08",
   "lists as sets, the whole dependencies relation, and wf_graph of the abstraction) on the exhaustive family of graphs with <= 2 nodes (5 object edge kinds + item/union member/wrapper, every target incl. self "
   "and forward, every failure position), 3 nodes (quick: 2 object edge kinds exhaustive + 4000 sampled of the full family; thorough: full family exhaustive, 109k graphs), sampled 4-node graphs, random graphs "
   "to 20 nodes (cycles, inline classes in items/unions/properties, enums, Reference components, dangling and remote references, class-name pressure, several failures) and the abstraction of the atlas and "
-  "of generated whole documents: ~32k cases quick, ~300k thorough. Oracle (stage C): valid documents D x bad piece b (array without items, dangling/remote $ref, invalid default, mixed-type enum at "
+  "of generated whole documents: ~32k cases quick, ~690k thorough. Oracle (stage C): valid documents D x bad piece b (array without items, dangling/remote $ref, invalid default, mixed-type enum at "
   "property / list item / union member / additionalProperties / allOf member / parameter / body / response; incompatible allOf; optional path parameter; duplicate parameters; unparseable body; pairs in thorough): "
   "every module of D outside the owner's dependants* is byte-identical in D+b, D+b imports module by module in a fresh interpreter and every surviving model executes from_dict/to_dict, every piece and every "
   "lost/changed module is named by a diagnostic; failures are classified by the Coq guards on the abstracted graph of D+b (known finding only if the failing survivor reaches the missing class through an unrecorded edge).",
@@ -346,7 +349,7 @@ claim("C07",
   "status_distinct_no_alias; refutation witnesses module_overwrite_refuted (operationIds get-x / get_x computed with the proved Names.python_identifier: one file, first operation lost, no diagnostic), "
   "status_alias_refuted (keys 200 / 0200), name_pressure_refuted (a component's class popped by the removal of an unrelated model: no module, no diagnostic). Correspondence per document: (1) for every component, "
   "`class in res_cbn` and `named by a diagnostic` of the model on the abstracted graph == census of models/*.py (ast) and the diagnostics generate() returned; (2) Census.collections on the operation list, with the "
-  "per-piece outcomes taken from the real leaf parsers (add_parameters/sort_parameters, response_from_data, body_from_data per media type) == the real endpoint collections (endpoints and (METHOD path, kind) warnings per tag, in order). "
+  "per-piece outcomes taken from the real leaf parsers called in the order of the real loop with the Schemas/Parameters they return threaded on (add_parameters/sort_parameters, response_from_data per response, body_from_data per operation with a one-result-per-media-type check) == the real endpoint collections (endpoints and (METHOD path, kind) warnings per tag, in order). "
   "Oracle: census of api/<tag>/*.py (method/url of _get_kwargs, status comparisons of _parse_response, Content-Type constants / body kwargs) and models/*.py joined with the document's operations and object/enum components and with "
   "the diagnostics, on the atlas, generated valid documents and documents with seeded breakage (broken schemas with dependants at distance 1-3 over five edge kinds, Reference components, class-name twins, module-name twins, "
   "operationId twins, broken/duplicate parameters, supported/unsupported/garbage media types, response keys default / 2XX / 0200 / 999): every item generated or diagnosed, no two items in one artefact without a diagnostic.",
